@@ -311,6 +311,11 @@ class AsyncsshTransport(AsyncTransport):
         if not self.session:
             return False
 
+        if self.stdout and self.stdout.at_eof():
+            # the device ended the shell; the ssh connection underneath may linger (or not have
+            # noticed yet) but there is nothing left to talk to
+            return False
+
         # this may need to be revisited in the future, but this seems to be a good check for
         # aliveness
         with suppress(AttributeError):
